@@ -288,6 +288,9 @@ fn supervisor(id: &str, tier_s: &str) -> i32 {
             }
         }
     }
+    // second pass of the thorough tier in a build without debug assertions / overflow checks (see ./check)
+    let build_tag: Option<String> = std::env::var("VMON_BUILD_TAG").ok().filter(|s| !s.is_empty());
+    let skip_evidence = std::env::var("VMON_SKIP_EVIDENCE").map_or(false, |v| v == "1");
     let workdir = root.join("replays").join(format!(".work-{}-{}", id, std::process::id()));
     let _ = std::fs::remove_dir_all(&workdir);
     std::fs::create_dir_all(&workdir).unwrap();
@@ -411,11 +414,15 @@ fn supervisor(id: &str, tier_s: &str) -> i32 {
 
     let mut n_viol = 0;
     for (i, (sig, detail)) in violations_out.iter().enumerate() {
-        let path = root
-            .join("replays")
-            .join(format!("{}-{}-{}-{}.json", id, tier.name(), seed, i));
+        let path = root.join("replays").join(match &build_tag {
+            Some(t) => format!("{}-{}-{}-{}-{}.json", id, tier.name(), t, seed, i),
+            None => format!("{}-{}-{}-{}.json", id, tier.name(), seed, i),
+        });
         let mut d = detail.clone();
         d["signature"] = json!(sig);
+        if let Some(t) = &build_tag {
+            d["build_profile"] = json!(t);
+        }
         std::fs::write(&path, serde_json::to_string_pretty(&d).unwrap()).unwrap();
         lines.push(format!("VIOLATION property={} replay={}", id, path.display()));
         n_viol += 1;
@@ -449,6 +456,22 @@ fn supervisor(id: &str, tier_s: &str) -> i32 {
     if !sanitizer.is_null() {
         coverage["sanitizer_tier"] = sanitizer;
     }
+    // summary left behind by the release-build pass that ./check runs before the thorough pass
+    let relfile = root.join("replays").join(format!(".release-pass-{}.json", id));
+    if build_tag.is_none() && tier == Tier::Thorough {
+        if let Some(v) = std::fs::read(&relfile).ok().and_then(|b| serde_json::from_slice::<Value>(&b).ok()) {
+            coverage["release_build_pass"] = v;
+            let _ = std::fs::remove_file(&relfile);
+        }
+    }
+    if let Some(t) = &build_tag {
+        let _ = std::fs::write(
+            &relfile,
+            serde_json::to_vec(&json!({"build_profile": t, "what": "the quick workload of this check in a build WITHOUT debug assertions and overflow checks", "seed": seed as i64,
+                "evaluations": evaluations, "distinct_nontrivial": distinct, "violations": n_viol, "inconclusive": inconclusive.clone(), "wall_s": wall}))
+            .unwrap(),
+        );
+    }
     let evidence = json!({
         "property_id": id,
         "tier": tier.name(),
@@ -459,14 +482,17 @@ fn supervisor(id: &str, tier_s: &str) -> i32 {
         "wall_s": wall,
         "violations": n_viol,
     });
-    std::fs::write(&evidence_path, serde_json::to_string_pretty(&evidence).unwrap()).unwrap();
+    if !skip_evidence {
+        std::fs::write(&evidence_path, serde_json::to_string_pretty(&evidence).unwrap()).unwrap();
+    }
 
     let _ = std::fs::remove_dir_all(&workdir);
     let so = std::io::stdout();
     let mut so = so.lock();
     writeln!(
         so,
-        "{} {} seed={} cases={} evaluations={} distinct_nontrivial={} violations={} wall={:.1}s",
+        "{}{} {} seed={} cases={} evaluations={} distinct_nontrivial={} violations={} wall={:.1}s",
+        build_tag.as_ref().map_or(String::new(), |t| format!("[{} build] ", t)),
         id,
         tier.name(),
         seed,
